@@ -150,7 +150,7 @@ def main():
         ck.prove(["gen/Consts.v", "Framing/ChainExec.v"], "props/C06.v")
     if ck.replay:
         rp = json.load(open(ck.replay))
-        cases = [rp["case"]] if "case" in rp else []
+        cases = [rp["case"]] if "case" in rp and rp.get("leg") != "production" else []
         for i, c in enumerate(cases):
             c["id"] = i
     else:
@@ -206,10 +206,57 @@ def main():
                          {"case": c, "impl": slim, "model_and_spec": model, "codes": codes,
                           "correspondence": "Framing/Chain.v collect vs Chain::send() stream"},
                          tag="m%d" % c["id"], no_input=True)
+    # ---- long chains at the production limit (chain harness built WITHOUT the hook cfg): tens of
+    # thousands of calls in one chain (the write queue is megabytes; any narrow counter overflows), the
+    # replies arriving in bursts of hundreds. Compared with the theorem's conclusion directly: one write
+    # of all the calls, exactly one item per call, then the end, and the next frame is still there.
+    long_runs = 0
+    if not ck.replay or json.load(open(ck.replay)).get("leg") == "production":
+        root = harness_root()
+        rc_, log_ = sh("cargo build --offline --bin chain --target-dir %s" % os.path.join(root, "target-nohook"),
+                       timeout=1500, cwd=root, env={"RUSTFLAGS": ""})
+        if rc_ != 0:
+            ck.violation("chain harness does not build against /repo without the hook cfg", {"log": log_[-3000:]},
+                         tag="pbuild", no_input=True)
+        else:
+            if ck.replay:
+                lcases = [json.load(open(ck.replay))["case"]]
+            else:
+                ns = [300, 65535, 65537] if ck.tier == "quick" else [129, 300, 4097, 32768, 65535, 65536, 65537, 70000, 140000]
+                lcases = [{"id": i, "target": ck.rng.choice(["typed", "value"]), "gen_flags": n,
+                           "gen": {"n": n, "burst": ck.rng.choice([1, 40, 700])}, "after": 2, "max_items": n + 10,
+                           "slim": True} for i, n in enumerate(ns)]
+            rc2, out2 = sh(os.path.join(root, "target-nohook", "debug", "chain"), timeout=900,
+                           input="\n".join(json.dumps(c) for c in lcases) + "\n")
+            got = {}
+            for l in out2.splitlines():
+                if l.startswith("{"):
+                    try:
+                        o = json.loads(l)
+                        got[o.get("id")] = o
+                    except ValueError:
+                        pass
+            for c in lcases:
+                long_runs += 1
+                r = got.get(c["id"]) or {"crash": True, "log": out2[-300:]}
+                n = c["gen_flags"]
+                after = [a.get("res", "") for a in r.get("after", [])]
+                okc = (r.get("n_items") == n and r.get("item_kinds") == {"ok": n} and r.get("ended") and not r.get("stuck")
+                       and r.get("write_ok") and r.get("n_writes") == 1 and not r.get("send_err")
+                       and len(after) == 2 and after[0].startswith("ok") and after[1] == "err:eof"
+                       and not r.get("lost_wakeups"))
+                if not okc:
+                    ck.violation("production limit: a chain of %d calls (replies in bursts of %d): %s items %s, ended=%s, "
+                                 "%s write(s) (content %s), the two receives after the stream gave %s; expected one write of "
+                                 "the calls, one item per call, the end, then the unrelated frame and end-of-file" % (
+                                     n, c["gen"]["burst"], r.get("n_items"), r.get("item_kinds"), r.get("ended"),
+                                     r.get("n_writes"), "ok" if r.get("write_ok") else "DIFFERS", after),
+                                 {"leg": "production", "case": c, "impl": r}, tag="long%d" % c["id"])
     hist = {}
     for c in cases:
         hist[c["tag"]] = hist.get(c["tag"], 0) + 1
     nontriv = {case_hash([c["flags"], c["events"]]) for c in cases if len(c["flags"]) >= 2}
+    ck.cov["production_limit_long_chain_runs"] = long_runs
     ck.cov.update({"evaluations": len(cases), "distinct_nontrivial": len(nontriv),
                    "traces_validated_against_impl": len(items), "case_classes": hist,
                    "all_flag_sequences_up_to": 4 if ck.tier == "quick" else 5,
